@@ -285,6 +285,8 @@ def check(run, replay=None):
             n, _ = run.known.get(k["id"], (0, k["summary"]))
             run.known[k["id"]] = (n + 1, k["summary"])
             continue
+        if any(c == clause for c, _, _ in run.violations):
+            continue      # one replay file per violated clause (first witness)
         payload = {"family": "routing", "property": run.prop, "clause": clause,
                    "table": {"services": table["services"], "reqs": [ev["req"]] if ev["e"] == "req" else
                              [{"m": "GET", "path": ev["path"], "ct": "", "acc": "", "clen": 0, "clh": "", "conds": []}],
